@@ -61,7 +61,8 @@ def unpivot(unpivot_fields, extra_keys, extra_value, regex=True, resources=None)
                 config.setdefault('unpivot_fields_without_regex', [])
                 for field_to_pivot in fields_to_pivot:
                     original_key_values = u_field['keys']  # With regex
-                    new_key_values = {}
+                    # every declared key field is present in the emitted rows (null if the entry names no value)
+                    new_key_values = dict((extra_key['name'], None) for extra_key in extra_keys)
                     for key in original_key_values:
                         new_val = original_key_values[key]
                         if regex and isinstance(new_val, str):
